@@ -205,8 +205,15 @@ static int streamDispatch(MPT_INTERFACE(input) *in, MPT_TYPE(event_handler) cmd,
 	int ret;
 	
 	if ((len = srm->data._rd._state.data.msg) < 0) {
-		if ((ret = mpt_queue_recv(&srm->data._rd)) < 0) {
-			return ret;
+		while ((ret = mpt_queue_recv(&srm->data._rd)) < 0) {
+			int flags = mpt_stream_flags(&srm->data._info);
+			/* decoder needs more work space than full queue can offer */
+			if (ret != MPT_ERROR(MissingBuffer)
+			    || !(flags & MPT_STREAMFLAG(ReadBuf))
+			    || (flags & MPT_STREAMFLAG(ReadMap))
+			    || !mpt_queue_prepare(&srm->data._rd.data, 64)) {
+				return ret;
+			}
 		}
 		if (!ret) {
 			if ((ret = _mpt_stream_fread(&srm->data._info)) < 0) {
